@@ -6,7 +6,7 @@
 From Coq Require Import Reals String List Bool ZArith QArith.
 From SpdVerif Require Import Base.Rx Base.CfgNumOps Spec.ConfigSpec Gen.ConfigTables Spec.ConfigUnits Model.ConfigTypes Model.Config
   Model.NumInst Model.Regex Model.Names Gen.ConfigConv
-  Proofs.C16_names Proofs.C16_round Proofs.C16_roundtrip Proofs.C16_stable Proofs.C16_defaults Proofs.Regex Gen.ConfigSites Gen.CfgSteps Proofs.CfgSteps_eq.
+  Proofs.C16_names Proofs.C16_round Proofs.C16_roundtrip Proofs.C16_stable Proofs.C16_defaults Proofs.Regex Proofs.C16_disjoint Gen.ConfigSites Gen.CfgSteps Proofs.CfgSteps_eq.
 Import ListNotations.
 Local Open Scope R_scope.
 
@@ -41,6 +41,28 @@ Theorem C16_pm_parse_sound : forall s t, pm_from_str s = Some t ->
   exists pre x y, list_ascii_of_string s = (pre ++ [x; y])%list /\
     lower x = letter_of (signal_polarization t) /\ lower y = letter_of (idler_polarization t).
 Proof. exact pm_parse_sound. Qed.
+
+(* the five regular languages of PMType::from_str are pairwise disjoint on ALL byte strings (pm_re d a x y is the shape every
+   compiled table entry has: C16_pm_compiled_shape), so the order of the if-chain is irrelevant: a string parses to t iff SOME
+   entry for t matches it *)
+Theorem C16_pm_compiled_shape :
+  compile_table pm_regex_table =
+  [ (Some {| c_ci := true; c_re := pm_re "0" "o" "o" "o" |}, Type0_o_oo);
+    (Some {| c_ci := true; c_re := pm_re "0" "e" "e" "e" |}, Type0_e_ee);
+    (Some {| c_ci := true; c_re := pm_re "1" "e" "o" "o" |}, Type1_e_oo);
+    (Some {| c_ci := true; c_re := pm_re "2" "e" "e" "o" |}, Type2_e_eo);
+    (Some {| c_ci := true; c_re := pm_re "2" "e" "o" "e" |}, Type2_e_oe) ].
+Proof. exact pm_compiled_shape. Qed.
+
+Theorem C16_pm_regexes_disjoint : forall d1 a1 x1 y1 t1 d2 a2 x2 y2 t2 w,
+  In (d1, a1, x1, y1, t1) pm_entries -> In (d2, a2, x2, y2, t2) pm_entries ->
+  matches true (pm_re d1 a1 x1 y1) w = true -> matches true (pm_re d2 a2 x2 y2) w = true -> t1 = t2.
+Proof. exact pm_regexes_disjoint. Qed.
+
+Theorem C16_pm_order_irrelevant : forall s t,
+  pm_from_str s = Some t <->
+  exists d a x y, In (d, a, x, y, t) pm_entries /\ matches true (pm_re d a x y) (list_ascii_of_string s) = true.
+Proof. exact pm_from_str_iff. Qed.
 
 Theorem C16_pm_inverse : forall t,
   signal_polarization (pm_inverse t) = idler_polarization t /\ idler_polarization (pm_inverse t) = signal_polarization t /\
@@ -192,6 +214,9 @@ Print Assumptions C16_pm_doc_examples.
 Print Assumptions C16_pm_printed_is_canonical.
 Print Assumptions C16_pm_polarizations_match_name.
 Print Assumptions C16_pm_parse_sound.
+Print Assumptions C16_pm_compiled_shape.
+Print Assumptions C16_pm_regexes_disjoint.
+Print Assumptions C16_pm_order_irrelevant.
 Print Assumptions C16_pm_inverse.
 Print Assumptions C16_pol_parses.
 Print Assumptions C16_pol_any_case.
